@@ -52,7 +52,19 @@ SKELS = [
      {"normsys": {"interpcode": "code1"}, "histosys": {"interpcode": "code0"}}),
     ("histosys-code2", {"channels": [("c1", 2, [("sig", [("normfactor", "mu")]), ("bkg", [("histosys", "h1"), ("normsys", "n1")])])], "poi": "mu"},
      {"normsys": {"interpcode": "code4"}, "histosys": {"interpcode": "code2"}}),
+    # non-default model options create further backend-dependent state (the boolean presence mask of clip_sample_data)
+    ("two-channels-clipped", {"channels": [("a", 2, [("sig", [("normfactor", "mu")]), ("bkg", [("histosys", "h1")])]),
+                                           ("b", 1, [("bkg", [("normsys", "n1")])])], "poi": "mu"},
+     {"__model__": {"clip_sample_data": 0.25, "clip_bin_data": 0.5}}),
 ]
+
+
+def model_kwargs(settings):
+    settings = dict(settings or {})
+    kw = dict(settings.pop("__model__", {}))
+    if settings:
+        kw["modifier_settings"] = settings
+    return kw
 
 
 # ---------------------------------------------------------------- library models
@@ -210,6 +222,11 @@ def compare_state(a, b, where, out, seen, lib, neutral=False):
             out["diff"].append((where, f"{type(a).__name__} vs {type(b).__name__}"))
         elif aa.dtype != bb.dtype and not neutral:
             out["diff"].append((where, f"array of dtype {aa.dtype}, a fresh object holds dtype {bb.dtype}"))
+        elif not neutral and getattr(a, "pyvc_backend", None) is not None and getattr(b, "pyvc_backend", None) is not None \
+                and getattr(a, "pyvc_backend")[0] != getattr(b, "pyvc_backend")[0]:
+            # a tensor of another LIBRARY (the precision of a float array is compared through its dtype above; a boolean or an
+            # integer tensor of the same library is the same tensor at either precision)
+            out["diff"].append((where, f"tensor made by backend {a.pyvc_backend}, a fresh object holds one made by {b.pyvc_backend}"))
         elif aa.shape != bb.shape or not np.array_equal(aa.astype(np.float64) if aa.dtype.kind in "fiub" else aa, bb.astype(np.float64) if bb.dtype.kind in "fiub" else bb,
                                                        equal_nan=aa.dtype.kind == "f"):
             out["diff"].append((where, "array contents differ"))
@@ -277,7 +294,7 @@ def run_history(T, sname, skel, settings, a, b, c, collect):
         spec, sym = K.build_spec(skel)
         for cnd in sym.positivity():
             eng.assume(cnd)
-        kw = {"modifier_settings": settings} if settings else {}
+        kw = model_kwargs(settings)
         objs = []
         log = []
         for step, st in enumerate((a, b, c)):
@@ -531,6 +548,9 @@ def histories(tier):
         s = SKELS[2]
         out.append((s[0], s[1], s[2], STATES[0], STATES[1], STATES[2], False))
         out.append((s[0], s[1], s[2], STATES[1], STATES[1], STATES[0], True))
+        s = SKELS[3]
+        out.append((s[0], s[1], s[2], STATES[0], STATES[2], STATES[1], False))
+        out.append((s[0], s[1], s[2], STATES[2], STATES[0], STATES[0], True))
     return out
 
 
@@ -578,7 +598,7 @@ def replay(r):
     if "history" in meta:
         skel = dict((n, (s, st)) for n, s, st in SKELS)[meta["skeleton"]]
         spec = concretise(skel[0], random.Random(3))
-        kw = {"modifier_settings": skel[1]} if skel[1] else {}
+        kw = model_kwargs(skel[1])
         avail = []
         for b in ("numpy", "jax", "pytorch", "tensorflow"):
             try:
